@@ -1499,3 +1499,104 @@ def block_is_built_as_the_block_design_says(nFuel: int, multCase: int, modCase: 
         assert b.p.axMesh == mesh * factor and b.p.nPins == 17
         assert b.log == [("setType", "fuel block", None), "buLimit", ("verify", 3)]
         assert same(b.spatialGrid, fuel.spatialLocator.grid) and eq(b.spatialGrid.pitch, 1.2), "the lattice of the block design"
+
+
+# ------------------------------------------------------------------------------------------------ component / group construction
+class MadeComponent:
+    """what components.factory returns (collaborator): remembers shape and keyword arguments; material with a theoretical density"""
+
+    def setDimension(self, key, val):
+        self.kwargs[key] = val
+
+
+class TDMat:
+    def getTD(self):
+        return self.td
+
+
+def factoryContract(shape, bcomps, kwargs):
+    """contract of components.factory: the component class registered for that (lower-case) shape, built with the keywords;
+    ValueError for an unknown shape"""
+    if shape not in ("circle", "hexagon"):
+        raise ValueError(shape)
+    return new(MadeComponent, shape=shape, kwargs=dict(kwargs), p=new(PMap, theoreticalDensityFrac=None), material=new(TDMat, td=kwargs["td"]),
+               flagged=None, depletable=None, customDensity=None, name=kwargs["name"])
+
+
+def conformContract(self, blueprint, matMods):
+    """contract of _conformKwargs (component_keywords_are_the_blueprint_values): the blueprint's values as keywords"""
+    return {"name": self.name, "td": self.td, "mods": dict(matMods)}
+
+
+def flagsContract(component, flags, blueprint):
+    component.flagged = flags
+
+
+def depletableContract(c, blueprint):
+    c.depletable = True
+
+
+def customDensityContract(self, comp, blueprint, matMods, inputHeightsConsideredHot):
+    if not isinstance(comp, GroupProbe):
+        comp.customDensity = (self.name, inputHeightsConsideredHot)
+
+
+class GroupProbe:
+    """composites.Composite as the group branch uses it: a named container, children in the order added"""
+
+    def __init__(self, name):
+        self.name = name
+        self.children = []
+
+    def add(self, c):
+        self.children.append(c)
+
+
+class COMPOSITES:
+    Composite = GroupProbe
+
+
+class Grouped:
+    """a GroupedComponent: name of a component design and its multiplicity in the group"""
+
+
+MAKE = {"armi.reactor.components:factory": "factoryContract",
+        "armi.reactor.blueprints.componentBlueprint:ComponentBlueprint._conformKwargs": "conformContract",
+        "armi.reactor.blueprints.componentBlueprint:_setComponentFlags": "flagsContract",
+        "armi.reactor.blueprints.componentBlueprint:insertDepletableNuclideKeys": "depletableContract",
+        "armi.reactor.blueprints.componentBlueprint:ComponentBlueprint._setComponentCustomDensity": "customDensityContract"}
+MAKEOV = {"armi.reactor.blueprints.componentBlueprint:yamlize": "YZ", "armi.reactor.blueprints.componentBlueprint:composites": "COMPOSITES"}
+
+
+@lemma(overrides=MAKEOV, stubs=MAKE, gen={"case": (0, 3), "td": (0.5, 1.0), "m1": (0.1, 0.9)})
+def component_or_group_is_made_as_specified(case: int, td: float, m1: float, e: float, hot: bool):
+    """ComponentBlueprint.construct: a component is made by the factory for its shape (case-insensitive, blanks ignored) with
+    the blueprint's keywords and the block's modifications, gets its flags, depletable nuclides, theoretical density and
+    custom density; an unknown shape is refused; a component GROUP becomes a container holding, in the group's order, one
+    component per entry built from the component design of that name WITHOUT block modifications and with the
+    multiplicity written in the group.  Everything else by contract: components.factory (MadeComponent), _conformKwargs,
+    _setComponentFlags, insertDepletableNuclideKeys, _setComponentCustomDensity, composites.Composite (GroupProbe)."""
+    case = choose(case, 0, 3)
+    shape = ("Circle", "  HEXAGON ", "Blob", "group")[case]
+    kernel = new(ComponentBlueprint, name="kernel", shape="circle", flags=None, td=td)
+    shell = new(ComponentBlueprint, name="shell", shape="circle", flags=None, td=td)
+    group = [new(Grouped, name="shell", mult=m1), new(Grouped, name="kernel", mult=1.0 - m1)]
+    bp = new(Bp, componentGroups={"triso": group}, componentDesigns={"kernel": kernel, "shell": shell})
+    mods = {"TD_frac": e}
+    try:
+        # natively the shape validator of yamlize already refuses the unknown shape when the attribute is set
+        cb = new(ComponentBlueprint, name="triso" if case == 3 else "fuel", shape=shape, flags="fuel depletable", td=td)
+        c = cb.construct(bp, mods, hot)
+        ok = True
+    except ValueError:
+        ok = False
+    assert ok == (case != 2), "unknown shape refused"
+    if ok and case < 2:
+        assert isinstance(c, MadeComponent) and c.shape == ("circle", "hexagon")[case], "the specified shape"
+        assert c.kwargs == {"name": "fuel", "td": td, "mods": mods}
+        assert c.flagged == "fuel depletable" and c.depletable is True and eq(c.p.theoreticalDensityFrac, td)
+        assert c.customDensity == ("fuel", hot)
+    if ok and case == 3:
+        assert isinstance(c, GroupProbe) and c.name == "triso" and [x.name for x in c.children] == ["shell", "kernel"]
+        assert eq(c.children[0].kwargs["mult"], m1) and eq(c.children[1].kwargs["mult"], 1.0 - m1), "multiplicity from the group"
+        assert all(x.kwargs["mods"] == {} and x.flagged == "fuel depletable" and x.depletable is True for x in c.children)
